@@ -518,6 +518,14 @@ func propC17b(t *rapid.T) {
 	for i := 0; i < rapid.IntRange(2, 6).Draw(t, "prefix"); i++ {
 		w.actMine(t, true)
 	}
+	// the wallet that will be imported and removed while everything runs has history of its own (two
+	// coinbase outputs), so that its rescan records transactions and its removal deletes them again
+	lateKeys, _ := sim.EntropyFor(rapid.SliceOfN(rapid.Byte(), 16, 16).Draw(t, "lateEntropy"), "pass9Xzz")
+	if lateKeys != nil {
+		for i := 0; i < 2; i++ {
+			w.mineFixed(t, []*wire.TxOut{wire.NewTxOut(700000000+int64(i), sim.StdScript(lateKeys.Addr(0).ScriptHash))}, nil, true)
+		}
+	}
 	w.deliverAll(t)
 	w.finishTasks(t)
 	if err := w.env.StopWallet(); err != nil {
@@ -647,7 +655,7 @@ func propC17b(t *rapid.T) {
 		}
 	}()
 	// the import / removal client
-	lateKeys, _ := sim.EntropyFor(rapid.SliceOfN(rapid.Byte(), 16, 16).Draw(t, "lateEntropy"), "pass9Xzz")
+	var removalAccepted int64
 	wg.Add(1)
 	go func() {
 		defer wg.Done()
@@ -670,6 +678,7 @@ func propC17b(t *rapid.T) {
 		}
 		for i := 0; i < 200; i++ {
 			if err := W.RemoveWallet(lateKeys.ID, lateKeys.Pass); err == nil {
+				atomic.StoreInt64(&removalAccepted, 1)
 				return
 			}
 			time.Sleep(time.Millisecond)
@@ -688,6 +697,22 @@ func propC17b(t *rapid.T) {
 		}
 		w.env.Queue = nil
 		time.Sleep(time.Duration(rapid.IntRange(0, 3).Draw(t, "gapMs")) * time.Millisecond)
+	}
+	// blocks keep arriving while the removal of the late wallet runs (its steps delete from the follower's
+	// pending-transaction set between two blocks the follower filters)
+	for dl := time.Now().Add(3 * time.Second); atomic.LoadInt64(&removalAccepted) == 0 && time.Now().Before(dl); {
+		time.Sleep(time.Millisecond)
+	}
+	if atomic.LoadInt64(&removalAccepted) == 1 {
+		for i := 0; i < 6; i++ {
+			w.actMine(t, true)
+			for _, b := range w.env.Queue {
+				H.OnBlockConnected(b)
+			}
+			w.env.Queue = nil
+			time.Sleep(300 * time.Microsecond)
+		}
+		w.flag("blocks-during-removal")
 	}
 	// keep the clients busy for a while beside the follower and the worker
 	for dl := time.Now().Add(4 * time.Second); atomic.LoadInt64(&calls) < 400 && time.Now().Before(dl); {
@@ -727,7 +752,7 @@ func propC17b(t *rapid.T) {
 	}
 	phase = "closed"
 	nc := atomic.LoadInt64(&calls)
-	c17.Case(hkey("race", strings.Join(w.journal, "\n")), nc > 50 && nb >= 4, "race-workload", fmt.Sprintf("api-calls>=%d", (nc/100)*100))
+	c17.Case(hkey("race", strings.Join(w.journal, "\n")), nc > 50 && nb >= 4, append([]string{"race-workload", fmt.Sprintf("api-calls>=%d", (nc/100)*100)}, w.sortedFlags()...)...)
 	c17.Label("race-api-calls", int(nc))
 	c17.Label("race-injected-commit-failures", ctl.InjectedCount())
 	c17.Label("race-failed-new-address-calls", int(atomic.LoadInt64(&failedNewAddr)))
